@@ -7,6 +7,7 @@
 import Axelar.Model.Trace
 import Axelar.Model.Gateway
 import Axelar.Model.GasService
+import Axelar.Model.TokenManager
 namespace Axelar
 
 structure Acct where
@@ -16,6 +17,22 @@ structure Acct where
 inductive Kind | gateway | gasService | governance | its | tokenManager
   deriving Repr, DecidableEq
 
+/-- address of the ESDT system smart contract -/
+def esdtSystemSc : Bytes :=
+  [0,0,0,0,0,0,0,0,0,1,0,0,0,0,0,0,0,0,0,0,0,0,0,0,0,0,0,0,0,2,255,255]
+
+/-- what the callback of a pending asynchronous call needs (the closure the real code stores) -/
+inductive PendKind
+  | tmIssue (tm : Bytes)
+  deriving Repr, DecidableEq
+
+structure Pending where
+  desc : PendDesc
+  src : Bytes                       -- the contract that registered the call
+  kind : PendKind
+  /-- outcome of the call once delivered: success flag and returned values -/
+  result : Option (Bool × List Bytes) := none
+
 structure World where
   now : Nat := 0
   accts : Bytes → Acct := fun _ => {}
@@ -23,6 +40,12 @@ structure World where
   owner : Bytes → Bytes := fun _ => []
   gw : Gateway.State := Gateway.State.empty
   gs : GasService.State := {}
+  tms : Bytes → TokenManager.State := fun _ => {}
+  /-- ESDT local roles (protocol level): may `addr` mint / burn `token` -/
+  mintRole : Bytes × Bytes → Bool := fun _ => false
+  burnRole : Bytes × Bytes → Bool := fun _ => false
+  pending : List Pending := []
+  nextPending : Nat := 0
 
 namespace World
 
@@ -74,24 +97,65 @@ def applySends (w : World) (src : Bytes) : List GasService.Send → Option World
     | some w' => applySends w' src rest
     | none => none
 
-/-- one transaction to a deployed contract (payments already moved by the caller of this
-    function); `none` = the transaction fails and the world is rolled back by the caller -/
+/-- effects of a token manager call, in order -/
+def applyEffects (w : World) (tm : Bytes) : List TokenManager.Eff → Option World
+  | [] => some w
+  | .send to tok amt :: rest =>
+    match send w tm to tok amt with
+    | some w' => applyEffects w' tm rest
+    | none => none
+  | .mint tok amt :: rest =>
+    if w.mintRole (tm, tok) then applyEffects (addEsdt w tm tok amt) tm rest else none
+  | .burn tok amt :: rest =>
+    if !w.burnRole (tm, tok) then none else
+    match subEsdt w tm tok amt with
+    | some w' => applyEffects w' tm rest
+    | none => none
+
+/-- register a pending asynchronous call -/
+def addPending (w : World) (src dst : Bytes) (func : String) (egld : Nat)
+    (esdt : List (String × Nat × Nat)) (args : List Bytes) (kind : PendKind) : World × PendDesc :=
+  let d : PendDesc := ⟨w.nextPending, dst, func, egld, esdt, args⟩
+  ({ w with pending := w.pending ++ [⟨d, src, kind, none⟩], nextPending := w.nextPending + 1 }, d)
+
+/-- result of running contract code: new world, returned values, events, newly pending calls -/
+abbrev CallRes := Option (World × List Bytes × List Event × List PendDesc)
+
+def tmCtx (w : World) (src dst : Bytes) (egld : Nat) (esdt : List (Bytes × Nat × Nat)) : TokenManager.Ctx :=
+  ⟨src, dst, w.now, egld, esdt⟩
+
+/-- finish a token manager call: commit state, apply effects, register the issue call -/
+def tmFinish (w : World) (dst : Bytes) (out : TokenManager.Out) : CallRes :=
+  match applyEffects { w with tms := upd w.tms dst out.st } dst out.effects with
+  | none => none
+  | some w' =>
+    match out.issue with
+    | none => some (w', out.results, stamp dst out.events, [])
+    | some ic =>
+      let (w'', d) := addPending w' dst esdtSystemSc "registerAndSetAllRoles" ic.value []
+        [ic.name, ic.ticker, strBytes "FNG", Codec.encNat ic.decimals] (.tmIssue dst)
+      some (w'', out.results, stamp dst out.events, [d])
+
+/-- one call to a deployed contract (payments already moved); `none` = failure -/
 def callContract (C : Crypto) (w : World) (src dst : Bytes) (func : String) (egld : Nat)
-    (esdt : List (Bytes × Nat × Nat)) (args : List Bytes) :
-    Option (World × List Bytes × List Event) :=
+    (esdt : List (Bytes × Nat × Nat)) (args : List Bytes) : CallRes :=
   match w.kind dst with
   | some .gateway =>
     -- no gateway endpoint is payable
     if egld ≠ 0 || !esdt.isEmpty then none else
     match Gateway.call C w.gw ⟨src, w.owner dst, w.now⟩ func args with
-    | .ok (gw', rs, evs) => some ({ w with gw := gw' }, rs, stamp dst evs)
+    | .ok (gw', rs, evs) => some ({ w with gw := gw' }, rs, stamp dst evs, [])
     | .error _ => none
   | some .gasService =>
     match GasService.call C w.gs ⟨src, w.owner dst, egld, esdt, balanceOf w dst⟩ func args with
     | .ok out =>
       match applySends { w with gs := out.st } dst out.sends with
-      | some w' => some (w', out.results, stamp dst out.events)
+      | some w' => some (w', out.results, stamp dst out.events, [])
       | none => none
+    | .error _ => none
+  | some .tokenManager =>
+    match TokenManager.call (w.tms dst) (tmCtx w src dst egld esdt) func args with
+    | .ok out => tmFinish w dst out
     | .error _ => none
   | _ => none
 
@@ -105,13 +169,13 @@ def tx (C : Crypto) (w : World) (src dst : Bytes) (func : String) (egld : Nat)
     | none => if func.isEmpty then (w1, .ok [] [] []) else (w, .fail)
     | some _ =>
       match callContract C w1 src dst func egld esdt args with
-      | some (w2, rs, evs) => (w2, .ok rs evs [])
+      | some (w2, rs, evs, pd) => (w2, .ok rs evs pd)
       | none => (w, .fail)
 
 /-- a view call: result only, nothing committed -/
 def query (C : Crypto) (w : World) (dst : Bytes) (func : String) (args : List Bytes) : Outcome :=
   match callContract C w dst dst func 0 [] args with
-  | some (_, rs, _) => .ok rs [] []
+  | some (_, rs, _, _) => .ok rs [] []
   | none => .fail
 
 def deploy (C : Crypto) (w : World) (kindName : String) (ownerAddr addr : Bytes) (args : List Bytes) :
@@ -129,7 +193,73 @@ def deploy (C : Crypto) (w : World) (kindName : String) (ownerAddr addr : Bytes)
       ({ w with gs := st, kind := upd w.kind addr (some .gasService), owner := upd w.owner addr ownerAddr },
        .ok [] [] [])
     | .error _ => (w, .fail)
+  | "token-manager" =>
+    match TokenManager.initCall args with
+    | .ok (st, evs) =>
+      ({ w with tms := upd w.tms addr st, kind := upd w.kind addr (some .tokenManager),
+                owner := upd w.owner addr ownerAddr },
+       .ok [] (stamp addr evs) [])
+    | .error _ => (w, .fail)
   | _ => (w, .fail)
+
+/-! ### delivery of pending calls -/
+
+def findPending (ps : List Pending) (id : Nat) : Option Pending := ps.find? (·.desc.id == id)
+
+def setResult (ps : List Pending) (id : Nat) (r : Bool × List Bytes) : List Pending :=
+  ps.map fun p => if p.desc.id == id then { p with result := some r } else p
+
+def esdtB (l : List (String × Nat × Nat)) : List (Bytes × Nat × Nat) :=
+  l.map fun (t, n, a) => (strBytes t, n, a)
+
+inductive How | real | ok (vals : List Bytes) | fail
+  deriving Repr, DecidableEq
+
+/-- deliver the call part of a pending async call.  External callees (`ok` / `fail`) are not
+    modelled: the schedule chooses their outcome; on `ok` they keep the attached value. -/
+def deliver (C : Crypto) (w : World) (id : Nat) (how : How) : World × Outcome :=
+  match findPending w.pending id with
+  | none => (w, .nopending)
+  | some p =>
+    if p.result.isSome then (w, .nopending) else
+    let d := p.desc
+    match how with
+    | .fail => ({ w with pending := setResult w.pending id (false, []) }, .fail)
+    | .ok vals =>
+      match pay w p.src d.to d.egld (esdtB d.esdt) with
+      | none => ({ w with pending := setResult w.pending id (false, []) }, .fail)
+      | some w' => ({ w' with pending := setResult w'.pending id (true, vals) }, .ok vals [] [])
+    | .real =>
+      match pay w p.src d.to d.egld (esdtB d.esdt) with
+      | none => ({ w with pending := setResult w.pending id (false, []) }, .fail)
+      | some w1 =>
+        match callContract C w1 p.src d.to d.func d.egld (esdtB d.esdt) d.args with
+        | some (w2, rs, evs, _) =>
+          ({ w2 with pending := setResult w2.pending id (true, rs) }, .ok rs evs [])
+        | none => ({ w with pending := setResult w.pending id (false, []) }, .fail)
+
+/-- run the callback of a delivered call -/
+def callback (C : Crypto) (w : World) (id : Nat) : World × Outcome :=
+  let _ := C
+  match findPending w.pending id with
+  | none => (w, .nopending)
+  | some p =>
+    match p.result with
+    | none => (w, .nopending)
+    | some (okFlag, vals) =>
+      let w0 := { w with pending := w.pending.filter (·.desc.id != id) }
+      match p.kind with
+      | .tmIssue tm =>
+        -- `ManagedAsyncCallResult<TokenIdentifier>`: success needs exactly one returned value
+        let res : Option (Option Bytes) :=
+          if okFlag then (match vals with | [v] => some (some v) | _ => none) else some none
+        match res with
+        | none => (w0, .fail)
+        | some r =>
+          let out := TokenManager.deployTokenCallback (w0.tms tm) r
+          match tmFinish w0 tm out with
+          | some (w1, rs, evs, pd) => (w1, .ok rs evs pd)
+          | none => (w0, .fail)
 
 end World
 end Axelar
